@@ -215,9 +215,12 @@ def run_check(check: str, tier: str, seed: int, jobs: int, only_case: dict | Non
     # anchor coverage
     anchors = getattr(mod, "ANCHOR_FILES", [])
     anchor_cov = {}
+    anchor_lines = {}
     for a in anchors:
         short = a.split("dissect/hypervisor/", 1)[-1]
-        anchor_cov[short] = len([c for c in covered if c.startswith(short + ":")])
+        lines = sorted(int(c.rsplit(":", 1)[1]) for c in covered if c.startswith(short + ":"))
+        anchor_cov[short] = len(lines)
+        anchor_lines[short] = lines
 
     extra = mod.summarize(results, counters, sets) if hasattr(mod, "summarize") else {}
     distinct = len(sigs)
@@ -231,6 +234,7 @@ def run_check(check: str, tier: str, seed: int, jobs: int, only_case: dict | Non
         "observed_set_sizes": {k: len(v) for k, v in sets.items()},
         "max_steps_in_a_case": steps_max,
         "anchor_lines_executed": anchor_cov,
+        "anchor_line_numbers_executed": anchor_lines,
         "repo_open_sites_observed": sorted(open_sites),
         "cases_with_audit_write_or_network_events": audit_flags,
         "shards": len(shards),
